@@ -18,8 +18,8 @@ Definition scalar_variants (k : skind) : list val :=
   | SBool => [VBool false; VBool true]
   | SInt i => [VInt 0; VInt 5; VInt (kmax i); VInt (kmin i)]
   | SByte => [VInt 0; VInt 65; VInt 255]
-  | SF32 => [fl 0 0; fl 3 (-1); fl (-5) (-2)]
-  | SF64 => [fl 0 0; fl 3 (-1); fl (-1001) (-3); fl 1 60]
+  | SF32 => [fl 0 0; fl 3 (-1); fl (-5) (-2); fl 32769 (-1)]                (* 16384.5: a magnitude at which a relative tolerance would differ from the absolute one *)
+  | SF64 => [fl 0 0; fl 3 (-1); fl (-1001) (-3); fl 1 60; fl 32769 (-1)]
   | SString => [VStr ""; VStr "ab"; VStr multibyte]
   end.
 
@@ -164,6 +164,7 @@ Fixpoint paths (n : node) (v : val) {struct n} : list tagged :=
              end) 0%nat es ++
           [(["-1"], "index-1"); ([nat_to_string len], "indexlen"); ([nat_to_string (S len)], "indexlen1");
            ([huge_index], "indexhuge"); (["x!"], "unparsable"); (["-1"; "q"], "index-1"); ([nat_to_string len; "q"], "indexlen");
+           (["9223372036854775808"], "index2p63"); (["18446744073709551615"], "index2p64m1"); (["0xffffffffffffffff"], "index2p64m1");
            ([""], "emptyseg"); (["08"], "unparsable"); (["00"], "octal"); (["0o1"], "octal"); (["+0"], "signed"); (["0_0"], "underscore")] ++
           (match es with [] => [] | e :: _ => pre "0x0" (take 2 (paths en e)) end)
         | _, _ => []
